@@ -46,5 +46,8 @@ PROP = {
     "level": "exploration",
     "stages": [
         {"name": "main", "post": _post},
+        # the unsafe surface below the CRAM writer/reader is zlib-rs / bzip2 / lzma: same workload, reduced
+        {"name": "asan", "variant": "asan", "args": ["inproc=1", "cases=300", "big=0"], "tiers": ("thorough",), "optional": True, "timeout": 3600},
+        {"name": "miri", "variant": "miri", "args": ["inproc=1", "tiny=1"], "tiers": ("thorough",), "optional": True, "timeout": 7200},
     ],
 }
